@@ -223,12 +223,36 @@ func GetFnMangleName(v interface{}, mainPkg string) (internal string, external s
 				internal, external = GetPkgMangleName(f.Pkg.Pkg.Path())
 			} else {
 				exported = false
+				// synthetic method-expression thunk "(T).M$thunk": no package, no receiver; the
+				// receiver is the first parameter. Qualify the name with it, otherwise thunks of
+				// equally named methods of different types collide.
+				if strings.HasSuffix(f.Name(), "$thunk") && f.Signature.Params().Len() > 0 {
+					rt := f.Signature.Params().At(0).Type()
+					ptr := ""
+					if pt, ok := rt.(*types.Pointer); ok {
+						rt = pt.Elem()
+						ptr = "$ptr" // T.M and (*T).M are different thunks
+					}
+					if nt, ok := rt.(*types.Named); ok && nt.Obj().Pkg() != nil {
+						internal, external = GetPkgMangleName(nt.Obj().Pkg().Path())
+						internal += "." + GenSymbolName(nt.Obj().Name()) + ptr
+						external += "." + GenSymbolName(nt.Obj().Name()) + ptr
+					}
+				}
 			}
 		}
 		internal += "."
 		external += "."
 		internal += GenSymbolName(f.Name())
 		external += GenSymbolName(f.Name())
+		// The SSA builder synthesizes (*T).M for a method declared with a value receiver (T).M;
+		// both used to be mangled to pkg.T.M, so the wrapper called itself.
+		if recv != nil && strings.HasPrefix(f.Synthetic, "wrapper for ") {
+			if _, isPtr := recv.Type().(*types.Pointer); isPtr {
+				internal += "$ptr"
+				external += "$ptr"
+			}
+		}
 
 	case *types.Func:
 		if f.Pkg().Path() != mainPkg {
